@@ -46,14 +46,27 @@ def consumer_scenarios():
                     'alphabet': ['dA', 't', 't', 't'],
                 }
                 out.append((name, fe, tok, lat))
+    # the caller awaits the result only some time after expressing (v2: the deadline counts from the expression)
+    for tok in ('PASS', 'FAIL'):
+        for lat, delay in ((8, 4), (5, 4), (12, 2), (3, 9)):
+            name = f'W|v2|{tok}|{lat}|{delay}'
+            c03.SCENARIOS[name] = {
+                # the second Interest never gets an answer: its timer makes the clock stop at the common deadline
+                'interests': [{'name': '/a', 'cbp': False, 'lifetime': 10, 'vlat': lat, 'verdict': tok, 'await_delay': delay},
+                              {'name': '/witness', 'cbp': False, 'lifetime': 10, 'vlat': 0, 'verdict': 'accept'}],
+                'packets': {'dA': {'data': '/a'}},
+                'prefix': ['x0', 'x1'],
+                'alphabet': ['dA', 't', 't', 't'],
+            }
+            out.append((name, 'v2', tok, lat))
     return out
 
 
 CONSUMER = consumer_scenarios()
 
 
-def consumer_scripts(max_len):
-    return [('x0', 'x1') + t for t in sub_multiset_orderings(['dA', 't', 't', 't'], max_len) if 'dA' in t]
+def consumer_scripts(max_len, prefix=('x0', 'x1')):
+    return [tuple(prefix) + t for t in sub_multiset_orderings(['dA', 't', 't', 't'], max_len) if 'dA' in t]
 
 
 def judge_consumer(sname, fe, tok, run):
@@ -123,6 +136,11 @@ def producer_cases():
                     for vlat in ((0, 5) if val != 'none' else (0,)):
                         yield {'fe': fe, 'kind': kind, 'digest': digest, 'validator': val, 'vlat': vlat}
         # legacy default validator versus a broken signature value
+    # a second attach on the occupied prefix is refused; the validator it brought must not replace the one in force
+    for fe, acc_tok, rej_tok in (('v2', 'PASS', 'FAIL'), ('legacy', 'True', 'False')):
+        for kind in ('params', 'signed-digest'):
+            for first, second in ((acc_tok, rej_tok), (rej_tok, acc_tok)):
+                yield {'fe': fe, 'kind': kind, 'digest': 'ok', 'validator': first, 'vlat': 0, 'dup_validator': second}
     yield {'fe': 'legacy', 'kind': 'signed-digest', 'digest': 'ok', 'validator': 'none', 'vlat': 0, 'break_sig': True}
     yield {'fe': 'v2', 'kind': 'signed-digest', 'digest': 'ok', 'validator': 'PASS', 'vlat': 0, 'break_sig': True}
 
@@ -173,6 +191,24 @@ def run_producer(case):
             app.attach_handler('/p', lambda name, ap, reply, ctx: log.append(('handler', loop.us)), validator)
         else:
             app.set_interest_filter('/p', lambda name, param, ap: log.append(('handler', loop.us)), validator)
+        if case.get('dup_validator'):
+            v2val = c03.verdict_value(case['dup_validator'], fe)
+            if fe == 'v2':
+                async def other(name, sig, ctx):
+                    log.append(('other-validator', loop.us))
+                    return v2val
+            else:
+                async def other(name, sig):
+                    log.append(('other-validator', loop.us))
+                    return v2val
+            try:
+                if fe == 'v2':
+                    app.attach_handler('/p', lambda name, ap, reply, ctx: log.append(('other-handler', loop.us)), other)
+                else:
+                    app.set_interest_filter('/p', lambda name, param, ap: log.append(('other-handler', loop.us)), other)
+                viol.append((f'C05|producer|{fe}|duplicate-attach-accepted', f'{case}'))
+            except ValueError:
+                pass
         face.deliver(wire)
         loop.settle()
         failures = loop.task_failures()
@@ -209,6 +245,8 @@ def run_producer(case):
         why = 'reached the handler' if called else 'was dropped'
         viol.append((f"C05|producer|{fe}|{case['kind']}|digest={case['digest']}|validator={'none' if tok == 'none' else ('accepting' if c03.verdict_accepts(tok, fe) else 'rejecting')}|{'delivered' if called else 'dropped'}",
                      f'{tag}: Interest {why}; expected handler called = {exp_called}'))
+    if 'other-validator' in kinds or 'other-handler' in kinds:
+        viol.append((f'C05|producer|{fe}|refused-attach-took-effect', f'{tag}: the validator / handler of a refused second attach was used: {kinds}'))
     if plain and consulted:
         viol.append((f'C05|producer|{fe}|plain-consulted-validator', f'{tag}: validator consulted for a plain Interest'))
     if called and consulted:
@@ -248,7 +286,7 @@ def unit(arg):
     if arg['kind'] == 'consumer':
         sname, fe, tok = arg['sname'], arg['fe'], arg['tok']
         factory = lambda loop, trace: c03.PitScenario(loop, trace, sname, fe)  # noqa
-        for script in consumer_scripts(arg['len']):
+        for script in consumer_scripts(arg['len'], c03.SCENARIOS[sname]['prefix']):
             def on_run(run, script=script):
                 acc.evaluations += 1
                 acc.transitions += run.steps
